@@ -627,6 +627,12 @@ pub struct QueryGenConfig {
     /// bias towards regex / not_regex filters on String properties with tag operands (the engine compiles tagged regexes
     /// at run time, per value: the one place where a process-wide cache would be tempting; used by C24)
     pub regex_bias: bool,
+    /// more tags (property and fold-count tags), more filters per property and more tag operands: the hint and
+    /// required-property machinery (C04, C05) lives on tag filters, several of them on one property included
+    pub tag_bias: bool,
+    /// sometimes generate a fold nothing observes (no outputs inside, no count output or tag): only such folds are eligible
+    /// for the engine's early termination
+    pub quiet_folds: bool,
 }
 
 impl Default for QueryGenConfig {
@@ -643,6 +649,8 @@ impl Default for QueryGenConfig {
             allow_sideways_recursion: false,
             loose_types: false,
             regex_bias: false,
+            tag_bias: false,
+            quiet_folds: false,
         }
     }
 }
@@ -653,6 +661,7 @@ struct GTag {
     ty: Ty,
     def_vid: usize,
     path: Vec<usize>,
+    is_count: bool,
 }
 
 struct GenCtx<'s> {
@@ -914,7 +923,13 @@ fn gen_filter(
         return Filter { op, arg: None };
     }
     // tag argument?
-    let tag_chance = if ctx.cfg.regex_bias && matches!(op, Op::Regex | Op::NotRegex) { 210 } else { 110 };
+    let tag_chance = if ctx.cfg.regex_bias && matches!(op, Op::Regex | Op::NotRegex) {
+        210
+    } else if ctx.cfg.tag_bias {
+        190
+    } else {
+        110
+    };
     if c.chance(tag_chance) {
         let loose_tag = ctx.cfg.loose_types && c.chance(90);
         let cands: Vec<GTag> = ctx
@@ -937,6 +952,11 @@ fn gen_filter(
             .cloned()
             .collect();
         if !cands.is_empty() {
+            // tag-biased worlds prefer fold-count tags when one is in scope (they are rare otherwise)
+            let mut cands = cands;
+            if ctx.cfg.tag_bias && cands.iter().any(|t| t.is_count) && c.chance(170) {
+                cands.retain(|t| t.is_count);
+            }
             let t = cands[c.below(cands.len())].clone();
             ctx.used_tags.insert(t.name.clone());
             if t.path.len() < use_path.len() {
@@ -1002,7 +1022,7 @@ fn gen_body(
             }
             let regex_bias = ctx.cfg.regex_bias && !pt.is_list() && pt.base == "String";
             // tag (defined before this property's own filters are generated: same-vertex use is legal)
-            if c.chance(if regex_bias { 170 } else { 80 }) {
+            if c.chance(if regex_bias { 170 } else if ctx.cfg.tag_bias { 150 } else { 80 }) {
                 let explicit = c.chance(180);
                 let name = if explicit {
                     ctx.fresh("t")
@@ -1012,7 +1032,7 @@ fn gen_body(
                 if !ctx.tag_names.contains(&name) {
                     ctx.tag_names.insert(name.clone());
                     sel.tags.push(if explicit { Some(name.clone()) } else { None });
-                    ctx.tags.push(GTag { name, ty: pt.clone(), def_vid: vid, path: path.to_vec() });
+                    ctx.tags.push(GTag { name, ty: pt.clone(), def_vid: vid, path: path.to_vec(), is_count: false });
                 }
             }
             // outputs
@@ -1038,7 +1058,15 @@ fn gen_body(
             if regex_bias && c.chance(170) {
                 ops = vec![Op::Regex, Op::NotRegex];
             }
-            let n_f = if c.chance(if regex_bias { 200 } else { 110 }) { 1 + c.chance(50) as usize } else { 0 };
+            let count_tag_in_scope = ctx.cfg.tag_bias
+                && !pt.is_list()
+                && pt.base == "Int"
+                && ctx.tags.iter().any(|t| t.is_count && t.path.len() <= path.len() && t.path[..] == path[..t.path.len()] && t.def_vid <= vid);
+            let n_f = if c.chance(if regex_bias { 200 } else if count_tag_in_scope { 235 } else if ctx.cfg.tag_bias { 170 } else { 110 }) {
+                if ctx.cfg.tag_bias { 1 + c.below(3) } else { 1 + c.chance(50) as usize }
+            } else {
+                0
+            };
             for _ in 0..n_f {
                 let f = gen_filter(ctx, c, &pt, &ops, vid, path);
                 sel.filters.push(f);
@@ -1077,7 +1105,17 @@ fn gen_edge(
         Some(_) => true,
     };
     let k = c.below(100);
-    let (fold_cut, opt_cut, rec_cut) = if ctx.cfg.fold_bias { (55, 70, 80) } else { (28, 50, 68) };
+    let (fold_cut, opt_cut, rec_cut) = if ctx.cfg.fold_bias {
+        (55, 70, 80)
+    } else if ctx.cfg.tag_bias && in_optional {
+        // a fold (with a tagged count) inside an optional scope is the rarest link of the chain "count tag defined inside a
+        // missing @optional, consumed by a later filter"
+        (62, 74, 84)
+    } else if ctx.cfg.tag_bias {
+        (38, 62, 76)
+    } else {
+        (28, 50, 68)
+    };
     if k < fold_cut && can_fold {
         sel.fold = true;
     } else if k < opt_cut {
@@ -1098,7 +1136,9 @@ fn gen_edge(
         let mut inner_path = path.to_vec();
         inner_path.push(vid);
         // count group decided first (filters use only tags registered before the fold), tags registered after
-        let want_count = c.chance(if ctx.cfg.fold_bias { 210 } else { 140 });
+        let want_count =
+            c.chance(if ctx.cfg.fold_bias { 210 } else if ctx.cfg.tag_bias { if in_optional { 235 } else { 190 } } else { 140 });
+        let quiet = ctx.cfg.quiet_folds && c.chance(80);
         let mut cs = CountSel::default();
         if want_count {
             let allow_filters = ctx.cfg.allow_count_filter_under_optional || !in_optional;
@@ -1118,7 +1158,7 @@ fn gen_edge(
                 let f = gen_filter(ctx, c, &int_ty, &ops, vid, path);
                 cs.filters.push(f);
             }
-            if c.chance(130) {
+            if !quiet && c.chance(130) {
                 let explicit = c.chance(170);
                 let name = if explicit {
                     ctx.fresh("o")
@@ -1133,8 +1173,11 @@ fn gen_edge(
             }
         }
         sel.body = gen_body(ctx, c, &ty, vid, &inner_path, &my_prefixes, depth + 1, fold_nesting + 1, false);
+        if quiet {
+            strip_outputs_in(&mut sel.body);
+        }
         if want_count {
-            if c.chance(if ctx.cfg.fold_bias { 120 } else { 70 }) {
+            if !quiet && c.chance(if ctx.cfg.fold_bias { 120 } else if ctx.cfg.tag_bias { if in_optional { 225 } else { 140 } } else { 70 }) {
                 let name = ctx.fresh("t");
                 ctx.tag_names.insert(name.clone());
                 cs.tags.push(name.clone());
@@ -1143,6 +1186,7 @@ fn gen_edge(
                     ty: Ty::named("Int", false),
                     def_vid: vid,
                     path: path.to_vec(),
+                    is_count: true,
                 });
             }
             sel.count = Some(cs);
@@ -1152,6 +1196,21 @@ fn gen_edge(
         sel.body = gen_body(ctx, c, &ty, vid, path, &my_prefixes, depth + 1, fold_nesting, child_opt);
     }
     sel
+}
+
+/// removes every output below (used for folds that nothing observes); output names stay reserved, which is harmless
+fn strip_outputs_in(body: &mut [Sel]) {
+    for s in body.iter_mut() {
+        match s {
+            Sel::Prop(p) => p.outputs.clear(),
+            Sel::Edge(e) => {
+                if let Some(cs) = e.count.as_mut() {
+                    cs.outputs.clear();
+                }
+                strip_outputs_in(&mut e.body);
+            }
+        }
+    }
 }
 
 // ---------------------------------------------------------------------------------------------
